@@ -92,7 +92,9 @@ def pipelines(draw, max_depth=3, faults=False):
     uids = Uids()
     items = [uids.fix(x) for x in draw(st.lists(K, max_size=8))]
     names = sorted(STAGES)
-    stages = draw(st.lists(st.tuples(st.sampled_from(names), st.integers(0, 3)), min_size=2, max_size=max_depth))
+    stages = draw(st.lists(st.tuples(st.sampled_from(names), st.integers(0, 3), st.sampled_from([0, 0, 0, 1, 2])),
+                           min_size=2, max_size=max_depth))
+    # third component: how many items the CALLER takes from that stage's iterator before passing it on
     return {"items": items, "stages": [list(s) for s in stages],
             "fl": draw(st.sampled_from(["agen", "aclass", "aplain", "list", "iter"])),
             "take": draw(st.one_of(st.none(), st.integers(0, 10))),
@@ -110,10 +112,26 @@ def run_both(case):
 
     async def consume():
         it = src_a.obj
-        for name, k in case["stages"]:
-            it = STAGES[name][0](it, k)
         events = []
-        for _ in range(limit):
+        dead = False
+        for stage in case["stages"]:
+            name, k, pre = stage[0], stage[1], (stage[2] if len(stage) > 2 else 0)
+            it = STAGES[name][0](it, k)
+            for _ in range(pre):
+                # a partly consumed library iterator is then handed to the next tool
+                try:
+                    events.append(("pre", sig(await it.__anext__())))
+                except StopAsyncIteration:
+                    events.append(("pre-stop",))
+                    dead = True
+                    break
+                except Exception as exc:
+                    events.append(("pre-raise", type(exc).__name__))
+                    dead = True
+                    break
+            if dead:
+                break  # what an iterator does AFTER it raised differs between generators and C iterators
+        for _ in range(limit if not dead else 0):
             try:
                 events.append(("item", sig(await it.__anext__())))
             except StopAsyncIteration:
@@ -136,13 +154,28 @@ def run_both(case):
         close_orphans(ctx_a)
     it = src_s.obj
     events_s = []
+    dead_s = False
     try:
-        for name, k in case["stages"]:
+        for stage in case["stages"]:
+            name, k, pre = stage[0], stage[1], (stage[2] if len(stage) > 2 else 0)
             it = STAGES[name][1](it, k)
+            for _ in range(pre):
+                try:
+                    events_s.append(("pre", sig(next(it))))
+                except StopIteration:
+                    events_s.append(("pre-stop",))
+                    dead_s = True
+                    break
+                except Exception as exc:
+                    events_s.append(("pre-raise", type(exc).__name__))
+                    dead_s = True
+                    break
+            if dead_s:
+                break
     except Exception as exc:
         events_s.append(("raise", type(exc).__name__))
         it = None
-    if it is not None:
+    if it is not None and not dead_s:
         for _ in range(limit):
             try:
                 events_s.append(("item", sig(next(it))))
